@@ -302,12 +302,11 @@ var lockWrappers = map[string]string{
 // errDropAllowed: dropped errors that were read and accepted, keyed by
 // function and callee.
 var errDropAllowed = map[string]string{
-	"estargz.(currentCompressionWriter).Write|io.(Writer).Write":                   "hash.Hash.Write never returns an error (documented by package hash)",
-	"fs/reader.(*reader).cacheData|cache.(Writer).Commit":                          "best-effort caching of a chunk that was already verified and returned; a failed commit only costs a later re-fetch",
-	"fusemanager.(*Server).Mount|fusemanager.(*Server).storeFuseInfo":              "store failures are outside C17's fault model (mount/unmount/construction failures); noted as N2 in DESIGN.md",
-	"fusemanager.(*Server).Unmount|fusemanager.(*Server).removeFuseInfo":           "as above (N2)",
-	"store.(*LayerManager).release|store.(*refPool).release":                       "the pool's own use counter; its error only says that the reference was not pooled, release of the layer proceeds",
-	"fs/reader.(*VerifiableReader).cacheWithReader|metadata.(Reader).ForeachChild": "errors of the walk are carried out through the named result by the callback; the walk's own error (directory id unknown) cannot occur for ids obtained from the same reader",
+	"estargz.(currentCompressionWriter).Write|io.(Writer).Write":         "hash.Hash.Write never returns an error (documented by package hash)",
+	"fs/reader.(*reader).cacheData|cache.(Writer).Commit":                "best-effort caching of a chunk that was already verified and returned; a failed commit only costs a later re-fetch",
+	"fusemanager.(*Server).Mount|fusemanager.(*Server).storeFuseInfo":    "store failures are outside C17's fault model (mount/unmount/construction failures); noted as N2 in DESIGN.md",
+	"fusemanager.(*Server).Unmount|fusemanager.(*Server).removeFuseInfo": "as above (N2)",
+	"store.(*LayerManager).release|store.(*refPool).release":             "the pool's own use counter; its error only says that the reference was not pooled, release of the layer proceeds",
 }
 
 var cleanupNames = map[string]bool{"Abort": true, "Close": true, "close": true, "CleanupAll": true}
